@@ -318,6 +318,71 @@ def r13g(F):
 	out.append(Result('13.g', ok, ('ok:' if ok else 'accounting:') + 'address-position-advances-by-entry-size', 'node_announcement reader: the consumed-byte counter is advanced only by 1 + len(address) of a decoded address (%d such site(s))%s' % (adv, '' if not bad else '; other updates: %s - the split between excess_address_data and excess_data moves, so an announcement with an unknown address type does not re-encode to the signed bytes' % bad), adv + len(bad), where=F.where(fu.name, bad[0][0] if bad else None)))
 	return out
 
+def r13h(F):
+	"""chunked reads: inside a read loop the size of the next chunk is min(what is still missing, buffer size) - the bounded quantity depends on
+	the loop's progress (a counter or a remaining length updated in the loop), so the last chunk never reads past the declared length"""
+	out = []
+	F.calls
+	cands = set()
+	for k, v in F.callers_of.items():
+		if k.endswith('Read::read_exact'):
+			cands |= {r[0] for r in v if r[0].startswith('<lightning::') or r[0].startswith('lightning::') or r[0].startswith('<alloc::')}
+	n = 0
+	for cn in sorted(cands):
+		try:
+			fu = F.func(cn)
+		except AnchorMissing:
+			continue
+		rd = [b for b, ci in fu.calls() if norm(ci.get('f') or ci.get('t') or '').endswith('read_exact')]
+		mn = [b for b, ci in fu.calls() if norm(ci.get('f') or ci.get('t') or '').endswith(('cmp::min', 'Ord::min'))]
+		ex = None
+		for b in mn:
+			cycle = {x for x in fu.reach([b]) if b in fu.reach([x])}
+			if b not in fu.reach(fu.succ(b)) or not any(r in cycle for r in rd):
+				continue
+			ex = ex or Expr(fu)
+			mod = set()
+			for x in cycle:
+				for st in fu.blocks[x]['s']:
+					if st[1] and isinstance(st[1][0], int):
+						mod.add(st[1][0])
+				t = fu.blocks[x]['t']
+				if t[1] == 'call' and t[2].get('dest'):
+					mod.add(t[2]['dest'][0])
+			args = [ex.of_operand(a) for a in fu.blocks[b]['t'][2]['args']]
+			dep = [sorted(l for l in expr_local_ids(a) if l in mod and l > fu.argc) for a in args]
+			n += 1
+			ok = any(dep)
+			short = cn.split(' as ')[0].rsplit('::', 1)[-1].strip('<>')
+			out.append(Result('13.h', ok, ('ok:' if ok else 'overread:') + 'chunk-bounded-by-remaining@' + short, '%s: the chunk size min(%s) %s' % (short, ', '.join(leaf_key(a)[:40] for a in args), 'shrinks with the loop\'s progress' if ok else 'does not depend on how much was already read: the last chunk reads past the declared length (ShortRead / bytes of the next field swallowed)'), 1, where=F.where(cn, fu.line_of(b))))
+	if n < 3:
+		out.append(Result('13.h', False, 'floor:chunked-read-loops', 'only %d chunked read loops found (expected >= 3: Vec<u8>, onion-message packet, OnchainTxHandler)' % n, n))
+	return out
+
+def r13i(F):
+	"""address descriptors: "unknown descriptor type" (Ok(Err(type byte)), which makes the caller keep the remaining bytes as excess address data)
+	is reported only when nothing but the type byte was consumed: no other read of the stream lies on a path to that result"""
+	out = []
+	ns = [n for n, r in F.fns.items() if n.endswith('::read') and 'msgs::<impl lightning::util::ser::Readable for core::result::Result' in n]
+	if len(ns) != 1:
+		return [Result('13.i', False, 'anchor:descriptor-reader', 'the Result<SocketAddress, u8> reader was not found (%d candidates)' % len(ns))]
+	fu = F.func(ns[0])
+	reads = [b for b, ci in fu.calls() if norm(ci.get('f') or ci.get('t') or '').endswith(('::read', 'read_exact', 'read_to_end')) and b in fu.reach([0])]
+	first = [b for b in reads if all(fu.dominates(b, o) for o in reads)]
+	unknown = set()
+	for bi, si, st in fu.stmts():
+		rv = st[2]
+		if rv[0] == 'agg' and rv[1] == 'adt' and rv[3] == 'Err' and norm(rv[2]).endswith('Result') and rv[4]:
+			ty = fu.locals[st[1][0]].get('ty') or ''
+			if 'SocketAddress' in ty and 'DecodeError' not in ty.split('SocketAddress')[0]:
+				unknown.add(bi)
+	if len(first) != 1 or not unknown:
+		return [Result('13.i', False, 'anchor:descriptor-reader-shape', 'descriptor reader: type-byte read / unknown-descriptor result not found (%d / %d)' % (len(first), len(unknown)), where=F.where(ns[0]))]
+	late = [b for b in reads if b != first[0] and fu.reach([b]) & unknown]
+	ok = not late
+	out.append(Result('13.i', ok, ('ok:' if ok else 'half-consumed:') + 'unknown-descriptor-consumes-type-byte-only', 'Result<SocketAddress, u8>::read reports an unknown descriptor only straight after the type byte (%d other stream reads, %d of them can reach that result)%s' % (len(reads) - 1, len(late), '' if ok else ' - at line(s) %s bytes are consumed and then reported as "unknown type": the announcement is accepted with the address bytes lost and excess data shifted, so it no longer re-encodes to the signed bytes' % sorted({fu.line_of(b) for b in late})), len(reads), where=F.where(ns[0])))
+	return out
+
 RULES = [
 	('13.a', 'wire::Message tables (write / type_id / do_read) agree; type ids distinct; unknown even disconnects, unknown odd ignored', r13a),
 	('13.b', 'hand-written message TLV tables: every written type is read; macro codecs symmetric with increasing types', r13b),
@@ -325,5 +390,7 @@ RULES = [
 	('13.e', 'address length accounting uses the wire length width (u16) in both directions', r13e),
 	('13.f', 'u16 length prefixes before raw bytes are the byte length of those bytes (error / warning / node_announcement)', r13f),
 	('13.g', 'node_announcement address accounting: the consumed-byte counter advances only by a decoded address', r13g),
+	('13.h', 'chunked read loops: the chunk size is bounded by what remains (depends on loop progress)', r13h),
+	('13.i', 'address descriptors: unknown-type is reported only when nothing but the type byte was consumed', r13i),
 	('13.d', 'BigSize / CollectionLength: writer widths equal reader minimality thresholds; non-minimal forms rejected', r13d),
 ]
